@@ -175,6 +175,9 @@ var registry = []Harness{
 		Quick:    [][]int{{0, 0, 0}, {0, 1, 1}, {0, 2, 0}, {0, 3, 1}, {0, 4, 0}, {1, 0, 0}, {1, 0, 1}},
 		Thorough: [][]int{{0, 0, 0}, {0, 1, 0}, {0, 2, 0}, {0, 3, 0}, {0, 4, 0}, {0, 0, 1}, {0, 1, 1}, {0, 2, 1}, {0, 3, 1}, {0, 4, 1}, {1, 0, 0}, {1, 0, 1}},
 		Bound:    "LEGACY Container storage preset raw: two containers under their bare 32-byte id (V2 blobs, every byte but the layout symbolic) with the owner index under the bare 57-byte owner||id (param2: one or two owners), an eACL, the stored contract hashes; era param0 (0: v in [0.15.4,0.17.0) with the notary flag param1, 1: [0.17.0,current)); symbolic version inside the era; then one container is deleted"},
+	{Prop: "C16", Pkg: "nns", Func: "VerifC16MigrateNNS", Link: []string{"nns"}, Unwind: 100,
+		Quick: [][]int{{0}, {1}},
+		Bound: "LEGACY NNS storage (< 0.18.0) preset raw in the layout of the recorded testnet dump: TLD 'com' as an ordinary token with a 20-byte owner, 'a.com' with a symbolic expiration, SOA records and one TXT record with 3 symbolic bytes, symbolic price >= 1; param0 = 1: the TLD's owner also owns a.com; symbolic version 0.15.4 <= v < 0.18.0; then a record is added and a sibling name registered"},
 	{Prop: "C16", Pkg: "netmap", Func: "VerifC16MigrateNetmap", Link: []string{"netmap", "probe1", "probe2"},
 		Quick:    [][]int{{0, 0}, {0, 1}, {0, 2}, {0, 3}, {0, 4}, {1, 0}, {1, 2}, {1, 4}, {2, 0}},
 		Thorough: [][]int{{0, 0}, {0, 1}, {0, 2}, {0, 3}, {0, 4}, {1, 0}, {1, 1}, {1, 2}, {1, 3}, {1, 4}, {2, 0}},
